@@ -330,18 +330,41 @@ def _worker_entry(args):
         return ("harness", traceback.format_exc())
 
 
-def pmap(modname, fname, payloads, procs=None):
-    """Run ``module.fname(payload) -> Part`` for each payload in spawned workers."""
+def pmap(modname, fname, payloads, procs=None, timeout=None):
+    """Run ``module.fname(payload) -> Part`` for each payload in spawned workers.
+
+    With ``timeout`` (seconds, for the whole map) the parent acts as a watchdog: workers that have not
+    delivered by then are killed, the results that did arrive are kept and the run is marked
+    ``budget_exhausted`` (inconclusive for the missing shards, never a violation)."""
     import multiprocessing as mp
 
     procs = procs or min(16, os.cpu_count() or 1, max(1, len(payloads)))
-    if os.environ.get("VF_SERIAL") == "1" or procs == 1 or len(payloads) == 1:
+    timed_out = 0
+    if os.environ.get("VF_SERIAL") == "1" or (procs == 1 and timeout is None) or (len(payloads) == 1 and timeout is None):
         res = [_worker_entry((modname, fname, p)) for p in payloads]
     else:
         ctx = mp.get_context("spawn")
-        with ctx.Pool(procs) as pool:
-            res = pool.map(_worker_entry, [(modname, fname, p) for p in payloads], chunksize=1)
+        pool = ctx.Pool(procs)
+        try:
+            if timeout is None:
+                res = pool.map(_worker_entry, [(modname, fname, p) for p in payloads], chunksize=1)
+            else:
+                it = pool.imap_unordered(_worker_entry, [(modname, fname, p) for p in payloads], chunksize=1)
+                res = []
+                deadline = time.time() + timeout
+                for _ in payloads:
+                    try:
+                        res.append(it.next(timeout=max(0.1, deadline - time.time())))
+                    except mp.TimeoutError:
+                        timed_out = len(payloads) - len(res)
+                        break
+        finally:
+            pool.terminate()
+            pool.join()
     total = Part()
+    if timed_out:
+        total.budget_exhausted = True
+        total.notes.append(f"watchdog: {timed_out} of {len(payloads)} shards of {modname}.{fname} did not finish within {timeout}s and were killed (inconclusive)")
     for status, val in res:
         if status != "ok":
             raise HarnessError("worker failed:\n" + str(val))
